@@ -405,14 +405,42 @@ theorem aclRnd_cls (a b : Bytes) (e : aclRnd.fold a = aclRnd.fold b) :
 theorem aclRnd_batches_positive : 0 < aclRnd.delBatch ∧ 0 < aclRnd.upsLimit ∧
     0 < cfgRnd.delBatch ∧ 0 < cfgRnd.upsLimit := by decide
 
+/-- When the guard fires (policies and tokens alike) the round fails BEFORE any write: no Raft
+    apply, the secondary's table unchanged, no index returned (the replicator retries from 0). -/
+theorem stale_round_fails_without_writes (R : Rnd κ η) (ov : List (κ × Option (Item κ η)))
+    (cre : κ → Nat) (last ridx : Nat) (l r : List (Item κ η))
+    (hd : staleDetected R true ov cre last ridx l r = true) :
+    roundOpsStale R true ov cre last ridx l r = [] ∧ roundFinalStale R true ov cre last ridx l r = l ∧
+      roundRetStale R true ov cre last ridx l r = none :=
+  roundFinalStale_detected R true ov cre last ridx l r hd
+
+/-- With fresh batch reads (no override) the guarded round is the plain round. -/
+theorem stale_round_fresh_is_round (R : Rnd κ η) (cre : κ → Nat) (last ridx : Nat) (l r : List (Item κ η))
+    :
+    staleDetected R true [] cre last ridx l r = false ∧
+    roundOpsStale R true [] cre last ridx l r = roundOps R last ridx l r := by
+  have hf : ∀ x : Item κ η, fetched ([] : List (κ × Option (Item κ η))) x = some x := fun _ => rfl
+  have hnd : staleDetected R true [] cre last ridx l r = false := by
+    simp only [staleDetected, Bool.true_and, List.any_eq_false]
+    intro x _
+    simp [guardBad, hf]
+  refine ⟨hnd, ?_⟩
+  have hu : roundUpsStale R [] last ridx l r = roundUps R last ridx l r := by
+    unfold roundUpsStale
+    have : (fetched ([] : List (κ × Option (Item κ η)))) = some := funext hf
+    rw [this, List.filterMap_some]
+  unfold roundOpsStale roundOps
+  simp only [hnd, Bool.false_eq_true, if_false, hu]
+
 /-! ### why the stale-read guard matters -/
 
 /-- The guard is what makes that true. Secondary holds policy [1] with content 1; the primary
     modified it at index 8 (content 2, created at 3); the batch read is answered by a lagging
     server with the version of index 5 (content 1). As coded the round fails (and is retried).
-    The variant that skips the guard on a full sync (`last = 0`; seeded change C19-3) — and the
-    token replicator, which has no guard at all — reports success with index 8 while the secondary
-    keeps content 1: the next round (last = 8) skips the object, the divergence is permanent. -/
+    A round that skips the guard — on a full sync (`last = 0`; seeded change C19-3), or altogether
+    as the token replicator did before its `ensureRemoteConsistent` was given the policy test —
+    reports success with index 8 while the secondary keeps content 1: the next round (last = 8)
+    skips the object, the divergence is permanent. -/
 def exStaleL : List (Item Bytes Bytes) := [⟨[1], 0, [5], 1, 1⟩]
 def exStaleR : List (Item Bytes Bytes) := [⟨[1], 8, [6], 2, 1⟩]
 def exStaleOv : List (Bytes × Option (Item Bytes Bytes)) := [([1], some ⟨[1], 5, [5], 1, 1⟩)]
